@@ -61,6 +61,10 @@ def run(tier, replay=None):
     # parser tables: the state after a key / variant / attribute does not depend on its value; u and t in either order (single dispatcher state)
     for which in ('core', 'dispatch', 'unicode', 'transform', 'private'):
         parserules.check(prog, rep, which)
+    # "parse to equal values with identical to_string()": equality is the derived structural one and the printers are functions of the fields only
+    from . import c12, emitrules
+    c12.derived_impls(prog, rep)
+    emitrules.check_display(prog, rep)
     rep.explanation = ('The metamorphic relation is not executed on pairs. Decided: (case) every validator accepts exactly a case-closed production and stores a fixed case transform of the input; literal '
                        'comparisons ("und", "true") are made on the folded text; from_byte maps u/U, t/T, x/X alike; (separators) one byte set {-,_} in all three split predicates and no other code sees '
                        'separators; (unordered parts) variants and attributes are sorted and de-duplicated before they are stored, keywords and tfields live in BTreeMaps, the parser tables have a single '
